@@ -288,7 +288,9 @@ def gen_powers(tier, rng):
     for _ in range(count(tier, 10, 100)):
         a = rng.randrange(2 ** 12, 10 ** 6)
         k = -(-2 ** 32 // a) + rng.randrange(0, 3)
-        yield {"a": [a] if rng.random() < 0.7 else [a, rng.choice([0, 1])], "k": k, "c": 1}
+        # (one indeterminate: the constructor rejects the first exponent above the unicode range, so the power fails after a few
+        #  multiplications; with a second column numpy accepts such keys and the loop would run k times before 2**32 is reached)
+        yield {"a": [a], "k": k, "c": 1}
 
 
 @check("C20", "power.monomial_powers", gen_powers, functions=("numpoly.power", "numpoly.multiply"),
